@@ -49,7 +49,7 @@ func directC19pos(g *G, rep *Report) {
 		name := reg.Templates[0].Node.Name
 		src := ""
 		for _, f := range fs {
-			if strings.Contains(f.content, "{namespace "+reg.Templates[0].Namespace.Name) {
+			if ns := "{namespace " + reg.Templates[0].Namespace.Name; strings.Contains(f.content, ns+"}") || strings.Contains(f.content, ns+" ") {
 				src = f.content
 			}
 		}
